@@ -191,6 +191,38 @@ func TestShortCircuitTable(t *testing.T) {
 	evid.Exhaustive("short-circuit-table", n)
 }
 
+// TestInListLiteral: `x in [e1, e2, e3]` written with a list LITERAL: every element is evaluated exactly once, in order,
+// whether or not an earlier element already matched; a failing later element is an error.
+func TestInListLiteral(t *testing.T) {
+	dom := []any{int64(1), "a", nil, 1.5, true, []any{int64(1)}}
+	n := 0
+	for _, l := range dom {
+		for _, e1 := range dom {
+			for _, e2 := range dom {
+				for tail := 0; tail < 4; tail++ {
+					elems := []*gen.Node{gen.NCall("pval", sgen.Lit(e1)), gen.NCall("pval", sgen.Lit(e2))}
+					var prog []*gen.Node
+					switch tail {
+					case 1:
+						elems = append(elems, gen.NCall("pval", sgen.Lit(l)))
+					case 2: // a later element that fails at run time
+						prog = append(prog, gen.NSet("z", gen.NInt(0)))
+						elems = append(elems, gen.NBin("/", gen.NInt(1), id("z")))
+					case 3: // a later element with a side effect on the point
+						elems = append(elems, gen.NCall("pval", gen.NCall("len", gen.NStr("abc"))))
+						elems = append([]*gen.Node{elems[0], gen.NCall("pval", sgen.Lit(l))}, elems[1:]...)
+					}
+					e := gen.NBin("in", gen.NCall("pval", sgen.Lit(l)), gen.NList(elems...))
+					prog = append(prog, gen.NCall("probe", gen.NStr("r"), e.Clone()), gen.NCall("add_key", id("r"), e.Clone()))
+					judge(t, "inlist", sem.NewCase(gen.FixAll(prog)), fmt.Sprintf("inlist/%s/%s/%s/%d", sgen.Class(l), sgen.Class(e1), sgen.Class(e2), tail), "in-list-literal")
+					n++
+				}
+			}
+		}
+	}
+	evid.Exhaustive("in over list literals with probed elements", n)
+}
+
 func genCase(t *rapid.T) (*sem.Case, *sgen.G) {
 	g := sgen.New(t)
 	g.Probes = true
